@@ -9,6 +9,7 @@ import (
 	"hash"
 	"io"
 	"runtime/debug"
+	"runtime/metrics"
 	"strings"
 	"sync"
 )
@@ -217,8 +218,24 @@ type SpyHash struct {
 	Log   *Log
 }
 
-func (s *SpyHash) Write(p []byte) (int, error) { s.Log.add(s.Name, "Write", p); return s.Inner.Write(p) }
-func (s *SpyHash) Sum(b []byte) []byte         { s.Log.add(s.Name, "Sum", nil); return s.Inner.Sum(b) }
-func (s *SpyHash) Reset()                      { s.Log.add(s.Name, "Reset", nil); s.Inner.Reset() }
-func (s *SpyHash) Size() int                   { return s.Inner.Size() }
-func (s *SpyHash) BlockSize() int              { return s.Inner.BlockSize() }
+func (s *SpyHash) Write(p []byte) (int, error) {
+	s.Log.add(s.Name, "Write", p)
+	return s.Inner.Write(p)
+}
+func (s *SpyHash) Sum(b []byte) []byte { s.Log.add(s.Name, "Sum", nil); return s.Inner.Sum(b) }
+func (s *SpyHash) Reset()              { s.Log.add(s.Name, "Reset", nil); s.Inner.Reset() }
+func (s *SpyHash) Size() int           { return s.Inner.Size() }
+func (s *SpyHash) BlockSize() int      { return s.Inner.BlockSize() }
+
+var allocSample = []metrics.Sample{{Name: "/gc/heap/allocs:bytes"}}
+
+// AllocBytes returns the cumulative number of heap octets allocated by the process so far (runtime/metrics; cheap, no
+// stop-the-world). Differences across a call bound what the call allocated (other goroutines of a check process are idle
+// apart from the watchdog ticker; small allocations are accounted with a lag of at most a few spans per P).
+func AllocBytes() uint64 {
+	metrics.Read(allocSample)
+	if allocSample[0].Value.Kind() != metrics.KindUint64 {
+		return 0
+	}
+	return allocSample[0].Value.Uint64()
+}
